@@ -39,6 +39,7 @@ structure HdrInv (d : List Nat) (l : LctHeader) : Prop where
   four_le : 4 ≤ d.length
   len_mod : l.len % 4 = 0
   ext_mod : l.headerExtOffset % 4 = 0
+  ext_ge : 4 ≤ l.headerExtOffset
 
 theorem parseLctHeader_cases (d : List Nat) :
     parseLctHeader d = .err ∨ ∃ l, parseLctHeader d = .ok l ∧ HdrInv d l := by
@@ -371,6 +372,8 @@ structure PktInv (d : List Nat) (p : AlcPkt) : Prop where
   known : knownFec p.lct.cp = true
   off_le : p.alcHeaderOffset ≤ p.payloadOffset
   pay_le : p.payloadOffset ≤ d.length
+  alc_eq : p.alcHeaderOffset = p.lct.len
+  pay_eq : p.payloadOffset = payloadIdLen p.lct.cp + p.lct.len
 
 theorem parseAlcPkt_cases (d : List Nat) :
     parseAlcPkt d = .err ∨ ∃ p, parseAlcPkt d = .ok p ∧ PktInv d p := by
@@ -416,6 +419,8 @@ theorem parseAlcPkt_cases (d : List Nat) :
                 · exact hk
                 · dsimp only; omega
                 · dsimp only; omega
+                · rfl
+                · rfl
 
 theorem getSenderCurrentTime_total (d : List Nat) (hw : Wf d) (p : AlcPkt) (h : PktInv d p) :
     (getSenderCurrentTime d p).isPanic = false := by
